@@ -141,6 +141,12 @@ def geo_worlds(tier: str, seed: int, *, convs=W.ALL_CONVS, big: bool = True) -> 
             out.append(structured_world("cf1d", ny, nx, **c))
             if len(out) % 2 == 0:
                 out[-1]["first_var"] = "flag"      # dataset dimension order x before y (see worlds.build)
+    if "cf1d" in convs:
+        # whole-degree axes stored as INTEGERS, three degrees apart (so the cell edges fall on half degrees), no stored bounds
+        wi = scaled(structured_world("cf1d", 3, 4, bounds=False), 8)
+        wi = shifted(wi, (-wi["geom"]["xc"][0]) % 64, (-wi["geom"]["yc"][0]) % 64)       # centres on whole degrees
+        wi["coord_dtype"] = "int32"
+        out.append(wi)
     for conv in ("cf2d", "shoc_simple"):
         if conv not in convs:
             continue
